@@ -290,7 +290,7 @@ def fam_placement(T=3, thorough=False):
     return out
 
 
-def fam_take_placement(T=3):
+def fam_take_placement(T=3, thorough=True):
     ids = Ids()
     out = []
     dt = [2] * T
@@ -299,8 +299,10 @@ def fam_take_placement(T=3):
               unaligned=(1, 3), far_after=(H + 2, H + 6))
     # the asset's own window: the horizon itself, reaching beyond it on both sides (a long-running contract optimised over a
     # shorter horizon), or cutting into it
-    wins = [(1, T + 1), (-2, T + 4), (2, T + 3)]
+    wins = [(1, T + 1), (-2, T + 4), (2, T + 3)] if thorough else [(-2, T + 4), (2, T + 3)]
     for (pname, (s, e)), sense, kind, (ws, we) in itertools.product(pl.items(), ('min', 'max'), ('contract', 'transport'), wins):
+        if not thorough and kind == 'transport' and pname in ('before', 'far_after', 'unaligned'):
+            continue
         tk = [dict(s=s, e=e, vol=4, sense=sense)]
         if kind == 'contract':
             x = F.contract(T, 'n1', 0, 2, [4, 1, 3][:T] if sense == 'min' else [1, 1, 1][:T], takes=tk, force_contract=True, ws=ws, we=we)
